@@ -11,6 +11,8 @@ import (
 
 func init() {
 	register("C18", false, func(p *core.Prog, r *core.Report, tier string) { tables.C18(p, r) })
+	register("C01", false, func(p *core.Prog, r *core.Report, tier string) { tables.C01(p, r) })
+	register("C16", false, func(p *core.Prog, r *core.Report, tier string) { tables.C16(p, r) })
 	register("C02", false, func(p *core.Prog, r *core.Report, tier string) { conserve.C02(p, r) })
 	register("C03", false, func(p *core.Prog, r *core.Report, tier string) {
 		conserve.C03(p, r)
